@@ -31,11 +31,27 @@ TRUST = ("Trusted: Coq 8.16.1 kernel (full .vo build; vm_compute only over finit
          "each run; translator/tables.py; the Python harness (generators, adapters, canonicalisers).  The Python functions are MODELLED "
          "by hand-written Gallina, not verified: the claim about the code is theorem-about-model + observed model/implementation agreement "
          "on the generated inputs of each run. ")
+sys.path.insert(0, os.path.join(HERE, "..", "translator"))
+import kernels_defs
+def kernel_text(pid):
+    groups = [g for g, props in kernels_defs.PROPS.items() if pid in props]
+    if not groups:
+        return ""
+    names = [f"{k['name']} <- {k['func']}" for k in kernels_defs.KERNELS if k["group"] in groups]
+    return (" REGENERATED FROM SOURCE on every run (translator/kernels.py, fail closed per kernel): "
+            + "; ".join(names) + ". The lemmas of " + ", ".join(f"coq/Tie/Tie_{g}.v" for g in groups)
+            + " prove for all arguments that the model's definitions are these generated terms (by arithmetic, not by syntax: "
+            "a meaning-preserving rewrite of the source still checks, a changed comparison / operand / constant does not); "
+            "a tie that no longer checks is reported as a broken obligation and the correspondence run then looks for the failing input.")
 checks = []
 for pid in ALL:
     if pid not in CLAIMED:
         continue
     c = CLAIMED[pid]
+    if kernel_text(pid):
+        c["text"] = c["text"] + kernel_text(pid)
+        c.setdefault("technique", "machine-checked proof in Coq 8.16.1 about a hand-written Gallina model + differential correspondence run against the implementation")
+        c["technique"] += " + arithmetic/decision kernels regenerated from the current source by a translator and tied to the model by kernel-checked lemmas"
     checks.append({
         "property_id": pid,
         "quick_cmd": f"./check {pid} --tier quick",
